@@ -31,12 +31,20 @@ def _lm_case(draw, tier, dense=False):
     big = tier == "thorough"
     if dense:
         # tables big enough that trie offsets leave the 8-bit range
-        V = draw(st.integers(3, 6 if big else 5))
-        n = draw(st.integers(2, 4))
+        V, n = draw(st.sampled_from([(3, 4), (4, 4), (5, 4), (6, 3), (7, 3), (4, 3), (5, 3)]))
+        # "mid": more than 256 trie nodes although every level pair still fits 8-bit offsets
+        profile = draw(st.sampled_from(["free", "free", "mid_a", "mid_b"]))
     else:
         V = draw(st.integers(1, 4))
         n = draw(st.sampled_from([1, 2, 2, 3, 3, 3, 4, 4]))
+        profile = "sparse"
     sos_kind = draw(st.sampled_from(["in", "in", "V", "-1", "far"]))
+    if profile == "mid_a":      # 5 symbols, order 4: levels 5, 25, 125, ~104
+        n = 4
+        V = 5 if sos_kind == "in" else 4
+    elif profile == "mid_b":    # 6 symbols, order 3: levels 6, 36, 216
+        n = 3
+        V = 6 if sos_kind == "in" else 5
     if sos_kind == "in":
         sos = draw(st.integers(0, V - 1))
     elif sos_kind == "V":
@@ -46,9 +54,6 @@ def _lm_case(draw, tier, dense=False):
     else:
         sos = draw(st.sampled_from([V + 3, -4]))
     base = V + (0 if 0 <= sos < V else 1)
-    if dense:
-        while base ** n > 1400 and n > 2:
-            n -= 1
     tables = []
     for m in range(1, n + 1):
         total = base ** m
@@ -59,7 +64,8 @@ def _lm_case(draw, tier, dense=False):
                 "excluded": st.lists(st.integers(0, total - 1), max_size=min(total - 1, 12), unique=True),
                 "a": st.integers(1, 64), "b": st.integers(0, 64), "c": st.integers(0, 64),
                 "inf_mod": st.sampled_from([0, 0, 7, 13]),
-                "keep_mod": st.sampled_from([1, 1, 2, 3, 6]),
+                "keep_mod": (st.sampled_from([1, 1, 2, 3, 6]) if profile == "free"
+                             else st.just(6 if (profile == "mid_a" and last) else 1)),
             })))
         else:
             cap = min(total, 12 if not big else 30)
@@ -68,8 +74,8 @@ def _lm_case(draw, tier, dense=False):
                 min_size=1 if last else 0, max_size=cap, unique_by=lambda e: e[0]))
             tables.append({"entries": [list(e) for e in ents]})
     Tmax = 6 if not big else 9
-    T = draw(st.one_of(st.integers(0, Tmax), st.integers(2, Tmax)))
-    B = draw(st.integers(1, 4))
+    T = draw(st.sampled_from([2, 1, 3, 0, 4, 5, 6, 3, 4, 5] + list(range(7, Tmax + 1))))
+    B = draw(st.sampled_from([2, 1, 3, 4]))
     tok = st.integers(0, V - 1)
     if base > V:
         tok = st.one_of(*([tok] * 9 + [st.just(sos)]))
@@ -77,7 +83,8 @@ def _lm_case(draw, tier, dense=False):
     # steer some histories onto listed n-grams: "follow" = (order, position in that order's list,
     # where the context ends); interpreted by _history()
     follow = draw(st.lists(
-        st.one_of(st.none(), st.tuples(st.integers(2, max(2, n)), st.integers(0, 40), st.integers(0, Tmax))),
+        st.one_of(st.none(), st.tuples(st.sampled_from([n, n, n, 2, 3]), st.integers(0, 40), st.integers(0, Tmax)),
+                  st.tuples(st.just(n), st.integers(0, 40), st.integers(0, Tmax))),
         min_size=B, max_size=B))
     idx = draw(st.lists(st.integers(0, T), min_size=B, max_size=B))
     return {"V": V, "sos": sos, "tables": tables, "hist": hist, "idx": idx,
@@ -265,7 +272,8 @@ def _arpa_strategy(tier):
             last = m == n
             ents = draw(st.lists(
                 st.tuples(st.integers(0, total - 1), st.integers(-800, 80), st.integers(-160, 160),
-                          st.sampled_from(["%.3f", "%.2f", "%.1f", "%g", "%.6f", "%e", "%d"])),
+                          st.sampled_from(["%.3f", "%.2f", "%.1f", "%g", "%.6f", "%e", "%d"]),
+                          st.sampled_from([False, False, True])),  # last: omit the back-off if unambiguous
                 min_size=1 if last else 0, max_size=min(total, 8), unique_by=lambda e: e[0]))
             tables.append([list(e) for e in ents])
         return {
@@ -277,6 +285,14 @@ def _arpa_strategy(tier):
         }
 
     return build()
+
+
+def _looks_numeric(tok):
+    try:
+        float(tok)
+        return True
+    except ValueError:
+        return False
 
 
 def _num_text(k, fmt, q):
@@ -297,16 +313,22 @@ def _arpa_check(case):
     nv = len(vocab)
     n = len(case["tables"])
     text_tables, expected = [], []
+    n_implicit = 0
     for m, ents in enumerate(case["tables"], start=1):
         last = m == n
         rows, exp = [], {}
-        for index, p, b, fmt in ents:
+        for index, p, b, fmt, implicit in ents:
             toks = [vocab[i] for i in K.index_to_tuple(index % nv ** m, m, nv)]
             ptxt = _num_text(p, fmt, 8)
             btxt = None if last else _num_text(b, fmt, 8)
+            if implicit and not last and not _looks_numeric(toks[-1]):
+                # ARPA allows leaving out the back-off weight (it is then log 1 = 0); only done where
+                # the last token cannot be mistaken for a number
+                btxt = None
+                n_implicit += 1
             rows.append((ptxt, toks, btxt))
             key = tuple(toks)
-            exp[key] = float(ptxt) if last else (float(ptxt), float(btxt))
+            exp[key] = float(ptxt) if last else (float(ptxt), 0.0 if btxt is None else float(btxt))
         text_tables.append(rows)
         expected.append(exp)
     text = K.write_arpa(text_tables, case["style"])
@@ -363,15 +385,10 @@ def _arpa_check(case):
     classes = ["order_%d" % n]
     if any(not t for t in case["tables"][:-1]):
         classes.append("empty_lower_order")
-    numeric = 0
-    for tok in vocab:
-        try:
-            float(tok)
-            numeric += 1
-        except ValueError:
-            pass
-    if numeric:
+    if any(_looks_numeric(tok) for tok in vocab):
         classes.append("numeric_looking_token")
+    if n_implicit:
+        classes.append("implicit_backoff")
     if any("e" in r[0] for rows in text_tables for r in rows):
         classes.append("exponent_notation")
     nontrivial = n >= 2 and sum(len(t) for t in case["tables"]) >= 3
@@ -381,4 +398,4 @@ def _arpa_check(case):
 subcheck("C06", "arpa", _arpa_strategy, 500, 10000,
          doc="harness-written ARPA text (explicit back-offs, odd tokens, several number formats) parsed from path / "
              "file / StringIO, with and without token2id: entries == written (base 10 exact, base e 1e-12)",
-         required_classes=["numeric_looking_token", "empty_lower_order"])(_arpa_check)
+         required_classes=["numeric_looking_token", "empty_lower_order", "implicit_backoff", "exponent_notation"])(_arpa_check)
